@@ -276,7 +276,7 @@ def r3(ctx: Ctx) -> None:
                 continue
             rect, levels = s[2][0], s[2][3]
             facts = g.facts_at(n.id)
-            guarded = mk_not(("a", rect, "fixed")) in facts
+            guarded = mk_not(("a", rect, "fixed")) in facts or levels == k_num(0)      # zero levels: the cell is handed through uncut
             if not guarded and levels[0] == "ite":
                 cond, a, b = levels[1], levels[2], levels[3]
                 conj = set(cond[1]) if cond[0] == "and" else {cond}
